@@ -5,6 +5,7 @@ import (
 	"fmt"
 	"reflect"
 	"sort"
+	"strings"
 	"time"
 	"unsafe"
 )
@@ -211,7 +212,65 @@ func keyRank(k any) string {
 	case reflect.String:
 		return "s" + v.String()
 	}
-	return fmt.Sprintf("x%v", k)
+	var sb strings.Builder
+	stableRank(&sb, v, 0)
+	return "x" + sb.String()
+}
+
+// stableRank writes a description of v that does not depend on addresses: channels by their creation number,
+// scalars by value, pointers / interfaces / structs by what they contain (to a small depth). Map keys that are
+// pointers to per-subscriber structs are thereby ordered by the channels and values inside them, the same way
+// in every execution.
+func stableRank(sb *strings.Builder, v reflect.Value, depth int) {
+	if depth > 4 {
+		sb.WriteString("~")
+		return
+	}
+	switch v.Kind() {
+	case reflect.Chan:
+		if v.IsNil() {
+			sb.WriteString("c-")
+		} else if cs, ok := E.chans[v.UnsafePointer()]; ok {
+			fmt.Fprintf(sb, "c%020d", cs.cid)
+		} else {
+			sb.WriteString("c?")
+		}
+	case reflect.Bool:
+		fmt.Fprintf(sb, "b%v", v.Bool())
+	case reflect.Int, reflect.Int8, reflect.Int16, reflect.Int32, reflect.Int64:
+		fmt.Fprintf(sb, "i%020d", v.Int()+(1<<62))
+	case reflect.Uint, reflect.Uint8, reflect.Uint16, reflect.Uint32, reflect.Uint64, reflect.Uintptr:
+		fmt.Fprintf(sb, "u%020d", v.Uint())
+	case reflect.Float32, reflect.Float64:
+		fmt.Fprintf(sb, "f%v", v.Float())
+	case reflect.String:
+		fmt.Fprintf(sb, "s%q", v.String())
+	case reflect.Ptr, reflect.Interface:
+		if v.IsNil() {
+			sb.WriteString("n")
+			return
+		}
+		sb.WriteString("*")
+		stableRank(sb, v.Elem(), depth+1)
+	case reflect.Struct:
+		sb.WriteString("{")
+		for i := 0; i < v.NumField(); i++ {
+			stableRank(sb, v.Field(i), depth+1)
+			sb.WriteString(",")
+		}
+		sb.WriteString("}")
+	case reflect.Slice, reflect.Array:
+		fmt.Fprintf(sb, "[%d:", v.Len())
+		for i := 0; i < v.Len() && i < 4; i++ {
+			stableRank(sb, v.Index(i), depth+1)
+			sb.WriteString(",")
+		}
+		sb.WriteString("]")
+	case reflect.Map:
+		fmt.Fprintf(sb, "m%d", v.Len())
+	default:
+		sb.WriteString(v.Kind().String())
+	}
 }
 
 // ---------------------------------------------------------------------------
@@ -246,7 +305,7 @@ func (c *Ctx) Deadline() (time.Time, bool) {
 	}
 	return time.Time{}, false
 }
-func (c *Ctx) Done() <-chan struct{}       { return c.done }
+func (c *Ctx) Done() <-chan struct{} { return c.done }
 func (c *Ctx) Value(k any) any {
 	if v, ok := c.vals[k]; ok {
 		return v
